@@ -10,6 +10,7 @@ import Mqtt.Driver.Broker
 import Mqtt.Driver.KeepAlive
 import Mqtt.Driver.Client
 import Mqtt.Driver.Conc
+import Mqtt.Driver.Ring
 
 namespace Mqtt.Driver
 
@@ -19,6 +20,7 @@ structure DState where
   broker : Broker.St := {}
   ka : KeepAlive.St := {}
   client : Client.St := {}
+  ring : Ring.DSt := Ring.DSt.init
 
 def dispatch (st : DState) (line : String) : DState × String × String :=
   match words line with
@@ -38,6 +40,7 @@ def dispatch (st : DState) (line : String) : DState × String × String :=
     let (a, m, s) := Client.handle st.client rest
     ({ st with client := a }, m, s)
   | "conc" :: rest => let o := Conc.handle rest; (st, o, o)
+  | "ring" :: rest => let (r, m, s) := Ring.handle st.ring rest; ({ st with ring := r }, m, s)
   | [] => (st, "", "")
   | _ => (st, "bad-core", "bad-core")
 
